@@ -28,17 +28,17 @@ type runner struct {
 
 // dbEvent is the case header: values as stored (read back), the engine's '=' matrix by id.
 type dbEvent struct {
-	Ev     string         `json:"ev"` // "db" (the chunked validator repeats these lines at chunk starts)
-	Case   int            `json:"case"`
-	Fam    string         `json:"fam"`
-	Coll   string         `json:"coll"` // bin | ci | cs | opaque | none : how Trace_Eq interprets strings
-	N      int            `json:"n"`
-	Vals   []any          `json:"vals"`
-	Tab    []int          `json:"tab"` // table index of every id
-	Eq     [][]int        `json:"eq"`  // 1 TRUE, 0 FALSE, 2 NULL, 3 not reported
-	ExpCls [][]int        `json:"expcls,omitempty"`
-	Src    *Case          `json:"src"` // the case as given (re-executable with -mode exec); ignored by the spec
-	SQL    []string       `json:"sql"`
+	Ev     string   `json:"ev"` // "db" (the chunked validator repeats these lines at chunk starts)
+	Case   int      `json:"case"`
+	Fam    string   `json:"fam"`
+	Coll   string   `json:"coll"` // bin | ci | cs | opaque | none : how Trace_Eq interprets strings
+	N      int      `json:"n"`
+	Vals   []any    `json:"vals"`
+	Tab    []int    `json:"tab"` // table index of every id
+	Eq     [][]int  `json:"eq"`  // 1 TRUE, 0 FALSE, 2 NULL, 3 not reported
+	ExpCls [][]int  `json:"expcls,omitempty"`
+	Src    *Case    `json:"src"` // the case as given (re-executable with -mode exec); ignored by the spec
+	SQL    []string `json:"sql"`
 }
 
 type opEvent struct {
@@ -163,7 +163,7 @@ func (r *runner) runCase(c *Case) {
 	}
 	id := 0
 	for ti, t := range c.Tables {
-		t.ids = nil
+		t.ids = []int{}
 		typ := sqlType(t.Type, c.Coll)
 		must(fmt.Sprintf("CREATE TABLE %s (id INT PRIMARY KEY, x %s)", t.Name, typ))
 		must(fmt.Sprintf("CREATE TABLE %sk (id INT PRIMARY KEY, x %s, KEY kx (x))", t.Name, typ))
@@ -245,7 +245,9 @@ func (r *runner) runCase(c *Case) {
 	emit(&opEvent{Ev: "matrix", Case: c.ID, Op: "matrix", Fam: fam, K: "matrix", L: []int{}, R: []int{}, Groups: [][]int{}, Mins: []int{},
 		Cnts: []int{}, Back: []int{}, List: []int{}, Res: [][2]int{}, Rows: []int{}, Pairs: [][2]int{}, SQL: []string{}})
 	x := &opsRunner{r: r, c: c, db: db, s: s, emit: emit}
-	x.all()
+	if c.Ops != "matrix" {
+		x.all()
+	}
 	// non-trivial: some '=' class of the case has two members with different stored representations,
 	// or the case holds a NULL next to non-NULL values
 	if nontrivial(ev) {
